@@ -19,7 +19,7 @@ import (
 // C12 end to end: access rules and route authentication gate every HTTP request.
 func TestVerifC12HTTP(t *testing.T) {
 	L := ev.Begin("C12", "c12-http", "exploration",
-		"access rule {none, allow v4 block, deny v4 block, allow v6 block, allow with malformed item, allow+deny, allow and deny with one malformed item next to a well-formed one} x auth scheme {none, known basic, unknown} x configured scheme map {one scheme, empty, nil} x peer (4) x X-Forwarded-For (none/inside/outside) x credentials {none, good, bad password, unknown user, malformed basic header, other scheme} x {proxied route, redirect route} through the real HTTPProxy.ServeHTTP with a real htpasswd file; oracle: 403 / 401 / 200 exactly as the statement prescribes and the upstream hit counter stays 0 unless admitted and authorised. non-trivial = case with a rule or an auth scheme")
+		"access rule {none, allow v4 block, deny v4 block, allow v6 block, allow with malformed item, allow+deny, allow and deny with one malformed item next to a well-formed one} x auth scheme {none, known basic, unknown} x configured scheme map {one scheme, empty, nil} x peer (4) x X-Forwarded-For (none/inside/outside) x credentials {none, good, bad password, unknown user, malformed basic header, other scheme} x {proxied route, redirect route} x {GET, CORS preflight OPTIONS} through the real HTTPProxy.ServeHTTP with a real htpasswd file; oracle: 403 / 401 / 200 exactly as the statement prescribes and the upstream hit counter stays 0 unless admitted and authorised. non-trivial = case with a rule or an auth scheme")
 	dir, err := os.MkdirTemp("", "c12")
 	if err != nil {
 		panic(err)
@@ -69,6 +69,7 @@ func TestVerifC12HTTP(t *testing.T) {
 		c       cred
 		schemes int // 0: the configured scheme map, 1: an empty map (no scheme configured), 2: nil
 		redirect bool // the route answers with a redirect instead of proxying: the gate comes first all the same
+		preflight bool // the request is a CORS preflight (OPTIONS + Origin + Access-Control-Request-Method): gated like any other
 	}
 	var jobs []job
 	for _, r := range rules {
@@ -76,12 +77,15 @@ func TestVerifC12HTTP(t *testing.T) {
 			for _, p := range []string{"10.1.2.3", "11.0.0.1", "fe80::1", "10.255.0.1"} {
 				for _, x := range []string{"", "10.9.9.9", "172.16.0.1"} {
 					for _, c := range creds {
-						jobs = append(jobs, job{r, a, p, x, c, 0, false})
+						jobs = append(jobs, job{r, a, p, x, c, 0, false, false})
 						if a != "" && x == "" {
-							jobs = append(jobs, job{r, a, p, x, c, 1, false}, job{r, a, p, x, c, 2, false})
+							jobs = append(jobs, job{r, a, p, x, c, 1, false, false}, job{r, a, p, x, c, 2, false, false})
 						}
 						if (r.opt != "" || a != "") && (c.name == "none" || c.name == "good") {
-							jobs = append(jobs, job{r, a, p, x, c, 0, true})
+							jobs = append(jobs, job{r, a, p, x, c, 0, true, false})
+						}
+						if (r.opt != "" || a != "") && x == "" && (c.name == "none" || c.name == "good" || c.name == "badpw") {
+							jobs = append(jobs, job{r, a, p, x, c, 0, false, true})
 						}
 					}
 				}
@@ -126,7 +130,12 @@ func TestVerifC12HTTP(t *testing.T) {
 			hdr = append(hdr, [2]string{"Authorization", j.c.hdr})
 		}
 		L.Case()
-		rec, _, hits, err := r.do(rawRequest("GET", "/x", "foo.com", hdr, nil, false), net.JoinHostPort(j.peer, "4711"), nil)
+		method := "GET"
+		if j.preflight {
+			method = "OPTIONS"
+			hdr = append(hdr, [2]string{"Origin", "https://app.example"}, [2]string{"Access-Control-Request-Method", "POST"})
+		}
+		rec, _, hits, err := r.do(rawRequest(method, "/x", "foo.com", hdr, nil, false), net.JoinHostPort(j.peer, "4711"), nil)
 		if err != nil {
 			panic(err)
 		}
@@ -154,6 +163,9 @@ func TestVerifC12HTTP(t *testing.T) {
 			L.Sample(d)
 		}
 		kind := ""
+		if want == 200 && rec.Code == 200 && rec.Header().Get("Www-Authenticate") != "" {
+			L.Violation("challenge-header-added-to-an-authorised-response", d)
+		}
 		if j.r.partly && rec.Code == 403 && hits == 0 {
 			return // never widens: rejecting is always acceptable for a partly malformed rule
 		}
@@ -169,6 +181,9 @@ func TestVerifC12HTTP(t *testing.T) {
 		}
 		if kind != "" && j.redirect {
 			kind += "/redirect-route"
+		}
+		if kind != "" && j.preflight {
+			kind += "/cors-preflight"
 		}
 		if kind != "" {
 			if j.authN == "nope" || j.schemes != 0 {
